@@ -366,3 +366,33 @@ O("C14.vtodoify", "C14", "h_C14.c", "h_C14_vtodoify",
   "vtodoify: for every limit 0..400 days the execution request carries one DURATION line, in the form PT<n>S, with n = the limit in ms rounded up to whole seconds",
   ["vtodoify"], solver=["minisat", "kissat", "z3"], timeout={"quick": 600, "thorough": 1800}, unwind=18, replay=False, replay_note="fdprnt.h replaced by recorder",
   assumptions=["fdprnt.h replaced by a ghost recorder in this translation unit (format pointer and first integer argument of the DURATION line)", "libc %d prints the decimal digits of its argument"])
+
+# ------------------------------------------------------------------ C09 / C16 fillers
+P("C09", level="proof",
+  level_text="Function and loop contracts on the real sub-daily fillers of evrrul.c (iterators and calendar kernels by the contracts C19 / C01.k discharge; every loop has an in-place inductive loop contract incl. a lexicographic decreases clause): for every valid DTSTART, every well-formed BYxxx container state, any INTERVAL up to 10^6, any COUNT/UNTIL: all array accesses and shifts are in bounds, the function returns at most what was asked for, every loop terminates (the cursor strictly advances and stops at the end of the supported range), results are real date-times.",
+  level_note="Trusted: CBMC semantics and DFCC loop-contract instrumentation; RR_WF (containers well-formed, INTERVAL >= 1) as established by the parser (not verified: snarf_rrule uses libc). Covered fillers are listed in the evidence; rrul_fill_yly/mly and their helpers, make_enum and refill/next_evrrul are not covered.",
+  not_covered=["rrul_fill_yly / rrul_fill_mly and the fill_yly_*/fill_mly_* helpers, clr_poss, shift", "make_enum time-of-day enumeration", "refill / next_evrrul cache indices", "snarf_rrule (libc strtol, gperf)"])
+P("C16", level="proof",
+  level_text="Same obligations as C09 with the ordering post-conditions: the occurrences a covered filler writes are strictly increasing (ghost witness pair, inductive invariant over the append-only output), none before DTSTART, none after UNTIL, never more than COUNT or than asked for. Across refills the stream order rests on echs_instant_sort (C20) and refill's bookkeeping, which is not covered.",
+  level_note="Trusted as for C09. Not covered: refill's COUNT bookkeeping across the 64-occurrence boundary, time-zone correction and rescale inside refill, yearly/monthly fillers, SHIFT/BYEASTER/SCALE extensions.",
+  not_covered=["refill: COUNT bookkeeping, seed hold-back, UTC correction, sort", "yearly/monthly fillers and the SHIFT / BYEASTER / SCALE extensions"])
+EF = dict(dfcc=True, loop_contracts=True, with_unwind=True,
+          replace=["bi447_next", "bui31_next", "bi31_next", "bui63_next", "ymd_get_wday", "__get_ndom"],
+          replace_status={"bi447_next": "discharged by C19.bi447_next", "bui31_next": "discharged by C19.bui31_next", "bi31_next": "discharged by C19.bi31_next",
+                          "bui63_next": "discharged by C19.bui63_next", "ymd_get_wday": "discharged by C01.k.wday", "__get_ndom": "discharged by C01.k.wday"},
+          solver=["minisat"], mem_gb=28, timeout={"quick": 1200, "thorough": 3600}, replay=False, replay_note="callees replaced by contracts, symbolic container states")
+O("C09.Sly", ["C09", "C16", "C01"], "h_C09.c", "h_C09_Sly",
+  "rrul_fill_Sly: memory safe, returns <= nti and <= COUNT, terminates, output strictly increasing, within [DTSTART, UNTIL], real date-times - for every valid DTSTART, every well-formed container state, INTERVAL 1..10^6",
+  ["rrul_fill_Sly"], **EF)
+
+# ------------------------------------------------------------------ C05
+P("C05", level="other",
+  level_text="'Print then parse returns the same task' runs through libc formatting and parsing (vsnprintf, strtol, gperf tables), which CBMC has no semantics for, so the text round trip as such is out of reach. Decided with contracts on the real code, with the fd printer replaced by a ghost recorder: every BYMONTH/BYHOUR/BYMINUTE/BYSECOND list written by send_rrul enumerates exactly the set its own container holds (0 and 31..59 included, no value twice); the containers themselves behave as sets (C19); instants and durations round-trip as text (C18); the max-simul limit survives the daemon's own encode/decode (C12). Everything else of the property is listed as not covered.",
+  level_note="Trusted: ghost recorder replacing fdprnt.h (format pointer + integer argument), libc %u/%d. Bounded: at most 3 values per BYxxx list in C05.send_rrul.sets. Not covered: field mapping of _ical_proc / snarf_fld (calendar-level defaults, LOCATION/SHELL merge), remaining COUNT / next DTSTART of send_evrrul, RDATE/EXDATE lists, escaping, lines near 1 KiB, interned strings.",
+  explanation="text round trip is outside CBMC's reach (libc); the set-valued parts of a rule are proved to be written completely, other parts are not covered",
+  not_covered=["END:VEVENT merge of calendar-level defaults (known weakness: LOCATION / X-ECHS-SHELL of an event without SETUID are lost)", "send_evrrul: remaining COUNT and next DTSTART per consumption prefix", "RDATE/EXDATE serialisation, BYSETPOS keyword, TZID spelling", "string fields, escaping, interning (intern.c)"])
+O("C05.send_rrul.sets", "C05", "h_C05.c", "h_C05_send_rrul_sets",
+  "send_rrul: the BYMONTH, BYHOUR, BYMINUTE and BYSECOND lists written are exactly the views of their containers (each iterated with the iterator of its own container type), nothing twice",
+  ["send_rrul"], kind="bounded", bound="at most 3 values per list (values symbolic over the whole range)", unwind=6,
+  cbmc_flags=["--unwindset", "bui31_next.0:34,bui63_next.0:66"],
+  solver=["minisat", "kissat"], timeout={"quick": 900, "thorough": 3600}, replay=False, replay_note="fdprnt.h replaced by recorder")
